@@ -14,7 +14,8 @@ the theorems quantify over every permutation.
 set_option linter.unusedSectionVars false
 
 namespace Sentinel.C07
-open Sentinel.LA Sentinel.System
+open Sentinel.System
+open Sentinel.LA (Mono runAdds mk Bucket)
 
 section generic
 variable {R : Type} [LT R] [LE R] [∀ a b : R, Decidable (a < b)] [∀ a b : R, Decidable (a ≤ b)] (A : Arith R)
